@@ -1488,12 +1488,34 @@ pub fn seq_churn(seed: u64, long_ok: bool) -> (Scenario, SchedCfg) {
             body.push(C::TrySend { h: 2 });
         }
     }
+    // the entry point each fixed receiver operates through (each has its own call to the
+    // signal / epoch announcement); a plain main receiver may be a single-consumer handle
+    let uni_main = !fut && !early_drop && g.rng.chance(1, 4);
+    if uni_main {
+        calls.push(C::IntoSingle { h: 1 });
+    }
+    let pick_recv = |g: &mut Gen, h: u32, uni: bool| -> C {
+        let mut ks = vec![C::TryRecv { h }, C::TryRecv { h }, C::Recv { h }];
+        if uni {
+            ks.push(C::TryRecvView { h });
+            ks.push(C::RecvView { h });
+            ks.push(C::TryIterNext { h, with: true });
+        } else {
+            ks.push(C::TryIterNext { h, with: false });
+        }
+        if fut {
+            ks = vec![C::TryRecv { h }, C::Recv { h }, C::Poll { h }, C::Poll { h }];
+        }
+        g.rng.pick(&ks).clone()
+    };
     if side_gone != 1 {
-        body.push(C::TryRecv { h: 1 });
-        body.push(C::TryRecv { h: 1 });
+        let k1 = pick_recv(&mut g, 1, uni_main);
+        body.push(k1.clone());
+        body.push(k1);
         if second_stream {
-            body.push(C::TryRecv { h: 3 });
-            body.push(C::TryRecv { h: 3 });
+            let k3 = pick_recv(&mut g, 3, false);
+            body.push(k3.clone());
+            body.push(k3);
         }
     }
     // churn
@@ -1504,6 +1526,19 @@ pub fn seq_churn(seed: u64, long_ok: bool) -> (Scenario, SchedCfg) {
         kinds &= 3;
         if kinds == 0 || (!bc && kinds == 2) {
             kinds = 1;
+        }
+    }
+    if uni_main {
+        // a single-consumer handle can be neither cloned nor forked: churn on the second
+        // stream and on the senders only
+        kinds &= 4;
+        if second_stream {
+            body.push(C::CloneRecv { h: 3, new: 10 });
+            body.push(C::DropRecv { h: 10 });
+            body.push(C::AddStream { h: 3, new: 11 });
+            body.push(C::DropRecv { h: 11 });
+        } else {
+            kinds = 4;
         }
     }
     if kinds & 1 != 0 {
@@ -1518,7 +1553,7 @@ pub fn seq_churn(seed: u64, long_ok: bool) -> (Scenario, SchedCfg) {
         body.push(C::CloneSender { h: 0, new: 12 });
         body.push(C::DropSender { h: 12 });
     }
-    if !fut && g.rng.chance(1, 2) && side_gone != 1 {
+    if !fut && !uni_main && g.rng.chance(1, 2) && side_gone != 1 {
         body.push(C::IntoSingle { h: 1 });
         body.push(C::IntoMulti { h: 1 });
     }
@@ -1541,6 +1576,9 @@ pub fn seq_churn(seed: u64, long_ok: bool) -> (Scenario, SchedCfg) {
     common_faults(&mut g, &mut s);
     s.tags = common_tags(&s);
     s.tags.push(if early_drop { "early_drop_of_non_last_handle".into() } else { "no_early_drop".into() });
+    if uni_main {
+        s.tags.push("uni_main".into());
+    }
     s.tags.push(match side_gone {
         1 => "side_gone=receivers".into(),
         2 => "side_gone=senders".into(),
